@@ -124,7 +124,23 @@ def base_world(ctx, nprov, rcs, consumers, bystanders, ratio_fixed=None,
     return w
 
 
-def fam_put(nprov, rcs, version='1.36', ratio_fixed=None, tree='flat'):
+def writer_total(state, consumer, pid, rcid):
+    """z3 Int: what `consumer` holds of class rcid on provider pid"""
+    from engine.scenario import zpres, zsum
+    return zsum([z3.If(zpres(r), to_z3(r.vals['used']), 0)
+                 for r in state['allocations']
+                 if r.vals['resource_provider_id'] == pid and
+                 r.vals['resource_class_id'] == rcid and
+                 r.vals['consumer_id'] == consumer])
+
+
+def fam_put(nprov, rcs, version='1.36', ratio_fixed=None, tree='flat',
+            dup=False):
+    """dup: the list body of the formats below 1.12 names provider 1 twice
+    (own symbolic amounts).  What the request "places" on the pair is then
+    read from the stored result - whatever the service makes of the two
+    entries, the amount the consumer ends up holding there must obey the
+    unit constraints and the capacity."""
     def path(ctx):
         app.setup()
         with base_world(ctx, nprov, rcs, [1], [2], ratio_fixed, tree) as w:
@@ -142,23 +158,34 @@ def fam_put(nprov, rcs, version='1.36', ratio_fixed=None, tree='flat'):
             if version == 'sym':
                 # every microversion: the band fixes the document format,
                 # the minor inside it is symbolic
-                lo, hi = corpus.BANDS_PUT[symex.choose(len(corpus.BANDS_PUT))]
+                bands = [b for b in corpus.BANDS_PUT if b[1] < 12] if dup \
+                    else corpus.BANDS_PUT
+                lo, hi = bands[symex.choose(len(bands))]
                 app.sym_minor(ctx, lo, hi)
                 body = corpus._alloc_body(ctx, allocs, '1.%d' % lo, n=1)
             else:
                 body = corpus._alloc_body(ctx, allocs, version, n=1)
+            if dup:
+                body['allocations'].append({
+                    'resource_provider': {'uuid': U(1)},
+                    'resources': {rc: ctx.int('amt_dup_%s' % rc)
+                                  for rc in rcs}})
             r = app.call('PUT', '/allocations/' + CONS(1), body,
                          version=version)
             post = w.dump()
+            if dup:
+                for rc in rcs:
+                    placed[(1, w.rcs[rc])] = [
+                        writer_total(post, CONS(1), 1, w.rcs[rc])]
             if r.status == 204:
                 check_success(ctx, w, pre, post, placed)
             elif r.status >= 500:
                 runner.violation(ctx, 'no-5xx', 'status %d' % r.status)
             return finish(ctx, str(r.status))
-    name = 'put-%dp%s-%s%s@%s' % (nprov, '' if tree == 'flat' else
-                                  '-' + tree, '+'.join(rcs),
-                                  '-ratio%s' % ratio_fixed if ratio_fixed
-                                  else '', version)
+    name = 'put-%dp%s-%s%s%s@%s' % (nprov, '' if tree == 'flat' else
+                                    '-' + tree, '+'.join(rcs),
+                                    '-ratio%s' % ratio_fixed if ratio_fixed
+                                    else '', '-twice' if dup else '', version)
     return Family(name, path, expect={'204', '409', '400'},
                   bounds=dict(providers=nprov, classes=list(rcs),
                               consumers='1 writer (new or existing), '
@@ -298,6 +325,7 @@ def families(tier):
             fam_post(1, ['VCPU']),
             fam_post(1, ['VCPU'], clear_first=True),
             fam_put(1, ['VCPU'], version='sym'),
+            fam_put(1, ['VCPU'], version='sym', dup=True),
             fam_reshape_general(),
             # several classes asked of one provider; each inventory may be
             # missing on its own
